@@ -135,12 +135,16 @@ def gen_case(rng, tier, g):
         n = len(table) - 1
         history = rng.choice(['full', 'full', 'partial-close-full',
                               'partial-drop-full', 'full-full',
-                              'partial-partial-full', 'sinkfail-full'])
+                              'partial-partial-full', 'sinkfail-full',
+                              'full-shrink-full'])
         return {'prop': PROP, 'machine': 'tee', 'fmt': fmt, 'args': args,
                 'config': draw_config(rng, 0.25, exclude=('sort_buffersize',)),
                 'table': table, 'history': history,
                 'partial': rng.randint(0, n + 1),
                 'budget': rng.choice([0, 1, 5, 20, 60, 200]),
+                'drop': rng.choice([1, 1, 2, 5]),
+                'sink': rng.choice(['sim', 'sim', 'memory'])
+                if history != 'sinkfail-full' else 'sim',
                 'rowtype': rng.choice(['copy', 'alias'])}
     if m < 0.8:
         kind = rng.choice(['progress', 'progress', 'log_progress', 'clock'])
@@ -257,8 +261,20 @@ def _run_tee(e, case, log):
     want_rows = canon_rows(rows)
     store = SimStore()
     src = SimTable([list(r) for r in rows], mode=case.get('rowtype', 'copy'))
-    view = _tee(e, fmt, src, store.source('tee'), args)
+    mem = None
+    if case.get('sink') == 'memory':
+        # petl's own in-memory target, reused by every pass of the view
+        mem = e.MemorySource()
+        view = _tee(e, fmt, src, mem, args)
+    else:
+        view = _tee(e, fmt, src, store.source('tee'), args)
     what = 'tee%s(%r)' % (fmt, args)
+    state = {'bytes': want_bytes, 'rows': want_rows}
+
+    def sink_bytes():
+        if mem is not None:
+            return mem.getvalue()
+        return store.files.get('tee')
 
     def full(label):
         got = []
@@ -272,13 +288,14 @@ def _run_tee(e, case, log):
                        % (what, label, type(ex).__name__, ex, len(got), fmt))
         del it
         log.add('pass', label, got)
-        if got != want_rows:
+        if got != state['rows']:
             raise _Bad('rows-differ', '%s %s: yielded %r, the wrapped table '
-                       'has %r' % (what, label, got, want_rows))
-        have = store.files.get('tee')
-        if have != want_bytes:
+                       'has %r' % (what, label, got, state['rows']))
+        have = sink_bytes()
+        if have != state['bytes']:
             raise _Bad('bytes-differ', '%s %s: the sink holds %r, to%s '
-                       'writes %r' % (what, label, have, fmt, want_bytes))
+                       'writes %r' % (what, label, have, fmt,
+                                      state['bytes']))
         if store.open_handles != 0:
             raise _Bad('handle-left-open', '%s %s: %d handles open after a '
                        'complete pass' % (what, label, store.open_handles))
@@ -335,8 +352,23 @@ def _run_tee(e, case, log):
         if store.open_handles != 0:
             raise _Bad('handle-left-open', '%s: %d handles open after a '
                        'pass whose sink failed' % (what, store.open_handles))
+    def shrink():
+        # the wrapped table loses its last rows between two passes: the
+        # target must then hold exactly what to* writes for the shorter table
+        keep = max(1, len(src.rows) - case.get('drop', 1))
+        del src.rows[keep:]
+        ref = SimStore()
+        _to(e, fmt, SimTable([list(r) for r in src.rows],
+                             mode=case.get('rowtype', 'copy')),
+            ref.source('ref'), args)
+        state['bytes'] = ref.files['ref']
+        state['rows'] = canon_rows(src.rows)
     h = case['history']
-    if h == 'sinkfail-full':
+    if h == 'full-shrink-full':
+        full('pass 1')
+        shrink()
+        full('pass after the table got shorter')
+    elif h == 'sinkfail-full':
         sinkfail(case.get('budget', 0))
         full('pass after one whose sink failed')
     elif h == 'full':
